@@ -63,6 +63,10 @@ type verifC19Case struct {
 	// the consumer behind the receiver blocks consumer_delay_us[k % len] microseconds in its k-th call
 	// (a backlog of frames builds up at the receiver and is then consumed in a burst)
 	ConsumerDelayUs []int `json:"consumer_delay_us"`
+	// dense: every point of a batch is a gauge point with an integer id attribute, a pseudo-random
+	// timestamp and a pseudo-random double value, so that nearly every bit the writer accounts for
+	// in a frame is also a byte on the wire (no dictionary strings, no repeated values)
+	Dense bool `json:"dense"`
 	// optional: points of batch j of worker w = points_by_worker[w % len][j % len] (overrides points)
 	PointsByWorker [][]int `json:"points_by_worker"`
 	// optional: number of batches of worker w = batches_by_worker[w % len] (overrides batches)
@@ -184,8 +188,33 @@ func verifHashes(ss []string) []string {
 
 // one batch: n data points, each unique over the whole case, spread over a few metrics of
 // different types under one resource per (exporter, worker parity)
-func verifMakeBatch(seed, e, w, b, n int) pmetric.Metrics {
+func verifMakeBatch(seed, e, w, b, n int, dense bool) pmetric.Metrics {
 	md := pmetric.NewMetrics()
+	if dense {
+		rm := md.ResourceMetrics().AppendEmpty()
+		rm.Resource().Attributes().PutStr("service.name", fmt.Sprintf("exp%d", e))
+		sm := rm.ScopeMetrics().AppendEmpty()
+		sm.Scope().SetName("verif")
+		m := sm.Metrics().AppendEmpty()
+		m.SetName("m.dense")
+		g := m.SetEmptyGauge()
+		g.DataPoints().EnsureCapacity(n)
+		x := uint64(seed)*0x9E3779B97F4A7C15 + uint64(((e*64+w)*4096+b)+1)*0xBF58476D1CE4E5B9
+		next := func() uint64 {
+			x += 0x9E3779B97F4A7C15
+			z := x
+			z = (z ^ (z >> 30)) * 0xBF58476D1CE4E5B9
+			z = (z ^ (z >> 27)) * 0x94D049BB133111EB
+			return z ^ (z >> 31)
+		}
+		for i := 0; i < n; i++ {
+			dp := g.DataPoints().AppendEmpty()
+			dp.Attributes().PutInt("id", int64(((e*64+w)*4096+b))<<32|int64(i))
+			dp.SetTimestamp(pcommon.Timestamp(next() >> 1))
+			dp.SetDoubleValue(float64(next()>>11) / float64(uint64(1)<<53))
+		}
+		return md
+	}
 	rm := md.ResourceMetrics().AppendEmpty()
 	rm.Resource().Attributes().PutStr("service.name", fmt.Sprintf("exp%d", e))
 	rm.Resource().Attributes().PutInt("wrk.parity", int64(w%2))
@@ -433,7 +462,7 @@ func verifRunC19(c *verifC19Case) (out *verifC19Out) {
 					}
 					// (large batches take long to build: callers whose pause is meant to fall inside a
 					// long export of another worker wait until that worker has built its batch)
-					md := verifMakeBatch(c.Seed, e, w, b, n)
+					md := verifMakeBatch(c.Seed, e, w, b, n, c.Dense)
 					canon := verifCanonPoints(md)
 					if n >= 50000 && b == 0 {
 						bigReady.Done()
